@@ -180,6 +180,13 @@ func must(ok bool, what string) {
 
 var out strings.Builder
 
+// emitters maps a generated file name (coq/Gen/<name>.v) to the function that
+// writes its body into out. Each area registers its own from an init().
+var emitters = map[string]func(){}
+
+func registerEmitter(name string, f func()) { emitters[name] = f }
+
+
 func emitKeyTables(prefix, keyFile, testFile string) {
 	kf := parseFile(keyFile)
 	consts := intConsts(kf)
@@ -263,8 +270,13 @@ func main() {
 	if len(os.Args) > 2 {
 		outDir = os.Args[2]
 	}
-	emitKeyTables("dep", "util/resolve/dep/key.go", "util/resolve/internal/deptest/deptest.go")
-	emitKeyTables("ver", "util/resolve/version/key.go", "util/resolve/internal/versiontest/versiontest.go")
-	flush(outDir, "AttrTables")
-	emitMore(outDir)
+	names := make([]string, 0, len(emitters))
+	for n := range emitters {
+		names = append(names, n)
+	}
+	sort.Strings(names)
+	for _, n := range names {
+		emitters[n]()
+		flush(outDir, n)
+	}
 }
